@@ -60,12 +60,23 @@ func partition(line, delim string) (string, string) {
 
 }
 
+// readLine reads the next line. A final line that lacks its trailing newline
+// is returned as if it were terminated; io.EOF is only returned when there is
+// nothing left to read.
+func readLine(reader *bufio.Reader) (string, error) {
+	line, err := reader.ReadString('\n')
+	if err == io.EOF && line != "" {
+		return line + "\n", nil
+	}
+	return line, err
+}
+
 func ParseOne(reader *bufio.Reader) (*ChangelogEntry, error) {
 	changeLog := ChangelogEntry{}
 
 	var header string
 	for {
-		line, err := reader.ReadString('\n')
+		line, err := readLine(reader)
 		if err != nil {
 			return nil, err
 		}
@@ -110,7 +121,12 @@ func ParseOne(reader *bufio.Reader) (*ChangelogEntry, error) {
 	var signoff string
 	/* OK, we've got the header. Let's zip down. */
 	for {
-		line, err := reader.ReadString('\n')
+		line, err := readLine(reader)
+		if err == io.EOF {
+			/* The input ended inside an entry; don't let callers (such as
+			 * Parse) mistake this for a clean end of the changelog. */
+			return nil, io.ErrUnexpectedEOF
+		}
 		if err != nil {
 			return nil, err
 		}
